@@ -220,6 +220,25 @@ def build(case, d):
         hd3 = _heredoc(shorter)
         if hd3 is not None:
             add('equals-neg2', False, '( equals ' + hd3 + '\n )')
+    # --- families: the same transformer applied to the actual text and to an expected text of every kind of source
+    # (transformers that read the lines of their source in several passes: strip, several / negative line ranges);
+    # the two sides are the same text, so every member must hold.  Not for texts with CR (S6: the kinds of source
+    # legitimately disagree there).
+    if '\r' not in t:
+        pgm = '% ' + pr + ' - ' + (('out=' + hexs) if hexs else 'rc=0')
+        for name, T in (('strip', 'strip'), ('strip-nl', 'strip -trailing-new-lines'),
+                        ('ln-multi', 'filter -line-nums 1 -2:'), ('ln-neg', 'filter -line-nums -1 1'),
+                        ('ln-rev', 'filter -line-nums 2: 1')):
+            lhs = '-transformed-by ( %s\n ) ' % T
+            rhs = '\n -transformed-by ( %s\n )' % T
+            fname = 'same-tr-' + name
+            add(fname, True, '( ' + lhs + 'equals -contents-of -rel-act e.txt' + rhs + ' )')
+            add(fname, True, '( ' + lhs + 'equals -stdout-from ' + pgm + rhs + ' )')
+            add(fname, True, '( ' + lhs + 'equals -stdout-from ' + pgm + '\n -transformed-by ( identity | %s\n ) )' % T)
+            add(fname, True, '( ' + lhs + '( equals -stdout-from ' + pgm + rhs + ' && equals -stdout-from ' + pgm + rhs
+                + ' ) )')
+            if hd is not None:
+                add(fname, True, '( ' + lhs + 'equals ' + hd + rhs + ' )')
     # --- family: whole-string consumer
     has_a = 'a' in t
     variants('matches', has_a, 'matches a', simple=False)
